@@ -1,9 +1,18 @@
 ID = 'C07'
 UNITS = {'img': dict(wrap='wrap.cc', new_block=64)}
-BOUNDS = ''
+BOUNDS = ('clamp_blit_dimensions: all six parameters in [-2^31,2^31], canvas extents in [0,2^31] (one loop-free query). read/write_pixel: x,y any int64, canvases up to 3x3, alpha on/off, 8/16/32/64-bit channels. '
+          'Rectangle operations (fill_rect, blit, mask_blit x3, blend_blit x2, custom_blit x2): destination and source sizes 0..3 x 0..3 as case-split cells, 8-bit channels, both alpha modes, '
+          'all six rectangle parameters symbolic in [-3,size+3], all canvas bytes symbolic, opaque alpha only, ONE symbolic checked pixel. Blend arithmetic: one pixel, 8- and 16-bit channels, one channel per query. '
+          'Lines: axis-aligned lines on canvases up to 3x3 with coordinates in [-3,size+3] and dash 0..3; draw_line for direction cells (dx,dy) in [-3,3]^2 on 4x4/3x3 with the start point anywhere in [-3,size+3]^2. '
+          'Text: one or two symbolic characters on canvases up to 4x4, position as a case-split cell. Transforms/copies: canvases up to 3x3, all channel widths.')
 STUBS = ['vasprintf: exact mini-model engine/rt/stub_printf.h (literals, %c, %s, hex); used only by the draw_text harness to build the 1-2 character string']
-OUTSIDE = []
-ASSUMPTIONS = []
+OUTSIDE = ['canvases larger than 4x4 (coordinates up to +-2^31 are covered by the clipping-kernel and direct-access harnesses only)',
+           'translucent alpha inside multi-pixel blits (the blend formula is decided per pixel by h_blend.c; multi-pixel queries restrict alpha bytes to {0,0xFF})',
+           'blend arithmetic on 32/64-bit channels (64-bit: sr*sa overflows uint64 in blend_blit - observation in NOTES.md); fill_rect/blit blending on non-8-bit canvases (they use the 0xFF scale)',
+           'resize_blit (floating point interpolation); text longer than 2 characters and text position symbolic (35 glyph writes at a symbolic offset: no verdict in 900 s); random operation sequences',
+           'the extent reported by draw_text (not a pixel; observation in NOTES.md)',
+           'draw_horizontal/vertical_line with negative dash length; signed overflow for coordinates beyond +-2^62']
+ASSUMPTIONS = ['x86-64 little-endian host', 'heap allocation never fails', 'colour/alpha arguments of the 8-bit drawing API are within 0..0xFF where the harness says so (blend harness)']
 
 COPY_LOOPS = 'in_bytes.0:%d,w_set_data.0:%d,w_get_data.0:%d,verif_memset_loop.0:%d,harness.0:%d'
 P = '_ZN5phosg5Image'
@@ -11,6 +20,9 @@ OPFN = {'fill': [P + '9fill_rectEllllmmmm'], 'blit': [P + '4blitERKS0_llllll'], 
         'maskdst': [P + '13mask_blit_dstERKS0_llllllmmm'], 'maskimg': [P + '9mask_blitERKS0_llllllS2_'],
         'blend': [P + '10blend_blitERKS0_llllll'], 'blendalpha': [P + '10blend_blitERKS0_llllllm'],
         'custom32': [P + '11custom_blitERKS0_llllllSt8functionIFvRjjEE'], 'custom64': [P + '11custom_blitERKS0_llllllSt8functionIFvRmS4_S4_S4_mmmmEE']}
+OPS = ['fill', 'blit', 'maskcolor', 'maskdst', 'maskimg', 'blend', 'blendalpha', 'custom32', 'custom64']
+BK = ['fill', 'blit', 'blendblit', 'blendblit_alpha']
+IK = ['mirrorh', 'mirrorv', 'invert', 'alpha', 'width', 'copy', 'assign', 'move']
 
 
 def loops(fns, bound, nloops=4):
@@ -20,19 +32,18 @@ def loops(fns, bound, nloops=4):
 
 def queries(tier):
     qs = []
+    T = tier == 'thorough'
     qs.append(dict(name='clamp_fullrange', unit='img', harness='h_clamp.c', defs={}, unwind=8, timeout=600, mem_gb=6, backend='cvc5',
                    desc='clamp_blit_dimensions: all 6 rectangle parameters in [-2^31,2^31], canvas extents in [0,2^31]: result == interval intersection reference',
                    bounds='coordinates and extents within +-2^31 (no 64-bit overflow)'))
-    cells = [(0, 0), (1, 1), (3, 2)] if tier == 'quick' else [(0, 0), (0, 2), (2, 0), (1, 1), (1, 3), (3, 1), (2, 2), (3, 3)]
-    for (W, H) in cells:
-        for A in (0, 1):
-            for CW in (8, 16, 32, 64):
-                n = W * H * (3 + A) * (CW // 8)
-                qs.append(dict(name='pixel_%dx%d_a%d_cw%d' % (W, H, A, CW), unit='img', harness='h_pixel.c', defs={'W': W, 'H': H, 'ALPHA': A, 'CW': CW},
-                               unwind=10, unwindset='in_bytes.0:%d,w_set_data.0:%d,w_get_data.0:%d,verif_memset_loop.0:%d' % (n + 2, n + 2, n + 2, n + 2), timeout=600, mem_gb=6,
-                               desc='read_pixel/write_pixel, unconstrained int64 x,y on a %dx%d canvas (alpha=%d, %d-bit channels): out_of_range iff outside; exact bytes touched' % (W, H, A, CW),
-                               bounds='canvas %dx%d, all pixel contents, x,y any int64' % (W, H)))
-    OPS = ['fill', 'blit', 'maskcolor', 'maskdst', 'maskimg', 'blend', 'blendalpha', 'custom32', 'custom64']
+
+    def pixel(W, H, A, CW):
+        n = W * H * (3 + A) * (CW // 8)
+        return dict(name='pixel_%dx%d_a%d_cw%d' % (W, H, A, CW), unit='img', harness='h_pixel.c', defs={'W': W, 'H': H, 'ALPHA': A, 'CW': CW},
+                    unwind=10, unwindset='in_bytes.0:%d,w_set_data.0:%d,w_get_data.0:%d,verif_memset_loop.0:%d' % (n + 2, n + 2, n + 2, n + 2), timeout=600, mem_gb=6,
+                    desc='read_pixel/write_pixel, unconstrained int64 x,y on a %dx%d canvas (alpha=%d, %d-bit channels): out_of_range iff outside; exact bytes touched' % (W, H, A, CW),
+                    bounds='canvas %dx%d, all pixel contents, x,y any int64' % (W, H))
+
     def opq(op, DW, DH, DA, SW, SH, SA, MW=0, MH=0):
         n = max(DW * DH * (3 + DA), SW * SH * (3 + SA), MW * MH * 3) + 2
         defs = {'OP': OPS.index(op), 'DW': DW, 'DH': DH, 'DA': DA, 'SW': SW, 'SH': SH, 'SA': SA}
@@ -44,43 +55,24 @@ def queries(tier):
         # the pixel loops of the operation run over the CLIPPED rectangle: at most min(dest,source) iterations per axis
         it = (max(DW, DH) if op == 'fill' else max(min(DW, SW), min(DH, SH))) + 1
         return dict(name=nm, unit='img', harness='h_ops.c', defs=defs, unwind=6,
-                    unwindset=COPY_LOOPS % ((n,) * 5) + ',' + loops(OPFN[op], it), timeout=900, mem_gb=8, object_bits=12,
+                    unwindset=COPY_LOOPS % ((n,) * 5) + ',' + loops(OPFN[op], it), timeout=1500, mem_gb=8, object_bits=12,
                     desc='%s: checked pixel of a %dx%d (alpha=%d) destination equals the per-pixel reference; source %dx%d (alpha=%d); all six rectangle parameters in [-3,size+3]' % (op, DW, DH, DA, SW, SH, SA),
                     bounds='dest %dx%d, source %dx%d, 8-bit channels, x,y,w,h,sx,sy in [-3,size+3], opaque alpha only' % (DW, DH, SW, SH))
-    def hvq(kind, W, H, A, dash):
-        n = W * H * (3 + A) + 2
-        fn = P + ('20draw_horizontal_lineEllllmmmm' if kind == 0 else '18draw_vertical_lineEllllmmmm')
-        return dict(name='%sline_%dx%da%d_dash%d' % ('hv'[kind], W, H, A, dash), unit='img', harness='h_hvline.c', defs={'KIND': kind, 'W': W, 'H': H, 'ALPHA': A, 'DASH': dash}, unwind=6,
-                    unwindset=COPY_LOOPS % ((n,) * 5) + ',' + loops([fn], (W if kind == 0 else H) + 8, 1), timeout=900, mem_gb=8, object_bits=12,
-                    desc='draw_%s_line on %dx%d (alpha=%d), dash %d: never throws, nothing off the segment changes, full segment drawn when both ends are inside' % (('horizontal', 'vertical')[kind], W, H, A, dash),
-                    bounds='canvas %dx%d, coordinates in [-3,size+3], dash length %d' % (W, H, dash))
-    def dlq(W, H, A, dx, dy):
-        n = W * H * (3 + A) + 2
-        return dict(name='drawline_%dx%da%d_dx%d_dy%d' % (W, H, A, dx, dy), unit='img', harness='h_drawline.c', defs={'W': W, 'H': H, 'ALPHA': A, 'DX': '(%d)' % dx, 'DY': '(%d)' % dy}, unwind=max(W, H, 4) + 2,
-                    unwindset=COPY_LOOPS % ((n,) * 5) + ',harness.2:%d' % (W * H + 2), timeout=900, mem_gb=8, object_bits=12,
-                    desc='draw_line direction (%d,%d), start anywhere in [-3,size+3]^2 on %dx%d: marked pixels on the ideal segment; both ends inside => connected path of max(|dx|,|dy|)+1 pixels' % (dx, dy, W, H),
-                    bounds='canvas %dx%d, direction (%d,%d), start in [-3,size+3]^2' % (W, H, dx, dy))
-    BK = ['fill', 'blit', 'blendblit', 'blendblit_alpha']
-    def blq(kind, DA, SA, CW, chan, backend='z3', timeout=600):
+
+    def blq(kind, DA, SA, CW, chan, timeout=900):
         return dict(name='blend1_%s_da%d_sa%d_cw%d_ch%d' % (BK[kind], DA, SA, CW, chan), unit='img', harness='h_blend.c', defs={'KIND': kind, 'DA': DA, 'SA': SA, 'CW': CW, 'CHAN': chan}, unwind=18,
-                    timeout=timeout, mem_gb=8, object_bits=12, backend=backend,
+                    timeout=timeout, mem_gb=8, object_bits=12, backend='z3',
                     desc='%s on one pixel (%d-bit channels, dest alpha=%d, source alpha=%d): channel %d equals the truncating alpha-blend formula' % (BK[kind], CW, DA, SA, chan),
                     bounds='1x1 canvases, all channel values, all alphas')
-    if tier == 'quick':
-        qs += [blq(0, 1, 1, 8, 0), blq(0, 1, 1, 8, 3), blq(1, 1, 1, 8, 1), blq(1, 1, 1, 8, 3), blq(2, 1, 1, 8, 2), blq(2, 1, 1, 8, 3), blq(3, 1, 1, 8, 0), blq(3, 1, 1, 8, 3)]
-    def txq(mode, W, H, A, BA, nch=1, tx=None, ty=None):
+
+    def txq(mode, W, H, A, BA, nch, tx, ty):
         n = (W + 2) * (H + 2) * (3 + A) + 2
-        defs = {'MODE': mode, 'W': W, 'H': H, 'ALPHA': A, 'BA': BA, 'NCH': nch}
-        pos = ''
-        if tx is not None:
-            defs.update(TX='(%d)' % tx, TY='(%d)' % ty); pos = '_at%d_%d' % (tx, ty)
-        return dict(name='text_%s_%dx%da%d_ba%d_n%d%s' % (('model', 'clipinv')[mode], W, H, A, BA, nch, pos), unit='img', harness='h_text.c', defs=defs, unwind=9,
-                    unwindset=COPY_LOOPS % ((n,) * 5) + ',X_vasprintf.0:8,' + loops(OPFN['fill'], max(W, H) + (3 if mode else 1)), timeout=900, mem_gb=8, object_bits=12, backend='cadical',
-                    desc='draw_text %s on %dx%d (alpha=%d, background alpha %d, %d symbolic char(s)), position anywhere in [-7,W+1]x[-9,H+1]' % (('glyph/background per-pixel model', 'clipping invariance small vs (W+2)x(H+2)')[mode], W, H, A, BA, nch),
-                    bounds='canvas %dx%d, %d character(s), 8-bit channels' % (W, H, nch))
-    if tier == 'quick':
-        qs += [txq(0, 3, 3, 1, 255, 1, -3, -4), txq(0, 4, 2, 0, 0, 1, 1, -2), txq(1, 3, 3, 0, 255, 1, -5, 1)]
-    IK = ['mirrorh', 'mirrorv', 'invert', 'alpha', 'width', 'copy', 'assign', 'move']
+        defs = {'MODE': mode, 'W': W, 'H': H, 'ALPHA': A, 'BA': BA, 'NCH': nch, 'TX': '(%d)' % tx, 'TY': '(%d)' % ty}
+        return dict(name='text_%s_%dx%da%d_ba%d_n%d_at%d_%d' % (('model', 'clipinv')[mode], W, H, A, BA, nch, tx, ty), unit='img', harness='h_text.c', defs=defs, unwind=9,
+                    unwindset=COPY_LOOPS % ((n,) * 5) + ',X_vasprintf.0:8,' + loops(OPFN['fill'], max(W, H) + (3 if mode else 1)), timeout=1500, mem_gb=8, object_bits=12, backend='cadical',
+                    desc='draw_text %s on %dx%d (alpha=%d, background alpha %d, %d symbolic char(s)) at (%d,%d)' % (('glyph/background per-pixel model', 'clipping invariance small vs (W+2)x(H+2)')[mode], W, H, A, BA, nch, tx, ty),
+                    bounds='canvas %dx%d, %d character(s), 8-bit channels, position (%d,%d)' % (W, H, nch, tx, ty))
+
     def ivq(kind, W, H, A, CW, CW2=16):
         n = W * H * 4 * max(CW, CW2 if kind == 4 else 8) // 8 + 2
         defs = {'KIND': kind, 'W': W, 'H': H, 'ALPHA': A, 'CW': CW}
@@ -91,18 +83,79 @@ def queries(tier):
                     unwindset=(COPY_LOOPS % ((n,) * 5)) + ',verif_memcpy_loop.0:%d' % n, timeout=900, mem_gb=8, object_bits=12,
                     desc='%s on %dx%d (alpha=%d, %d-bit): single-step model and round-trip identity / deep copy, one symbolic checked byte' % (IK[kind], W, H, A, CW),
                     bounds='canvas %dx%d, all contents' % (W, H))
-    if tier == 'quick':
-        qs += [ivq(0, 3, 2, 1, 8), ivq(0, 2, 2, 0, 16), ivq(1, 2, 3, 0, 8), ivq(1, 1, 2, 1, 32), ivq(2, 2, 2, 1, 8), ivq(2, 2, 1, 0, 64),
-               ivq(3, 2, 2, 0, 8), ivq(3, 2, 1, 1, 16), ivq(4, 2, 2, 1, 8, 16), ivq(4, 2, 1, 0, 8, 64), ivq(4, 1, 2, 0, 16, 32), ivq(4, 1, 2, 0, 32, 8),
-               ivq(5, 2, 2, 1, 8), ivq(5, 0, 0, 0, 8), ivq(6, 2, 2, 0, 8), ivq(7, 2, 2, 1, 16)]
-    if tier == 'quick':
-        qs += [hvq(0, 3, 2, 1, 0), hvq(0, 3, 2, 0, 2), hvq(1, 2, 3, 1, 1), hvq(1, 2, 3, 0, 0)]
-        qs += [dlq(4, 4, 0, 3, 1), dlq(4, 4, 1, -2, 3), dlq(3, 3, 0, 0, 0), dlq(4, 3, 0, 2, -1), dlq(4, 4, 0, -3, -3)]
-    if tier == 'quick':
-        for A in (0, 1):
-            qs.append(opq('fill', 3, 3, A, 0, 0, 0))
-        qs.append(opq('fill', 0, 0, 0, 0, 0, 0))
+
+    def hvq(kind, W, H, A, dash):
+        n = W * H * (3 + A) + 2
+        fn = P + ('20draw_horizontal_lineEllllmmmm' if kind == 0 else '18draw_vertical_lineEllllmmmm')
+        return dict(name='%sline_%dx%da%d_dash%d' % ('hv'[kind], W, H, A, dash), unit='img', harness='h_hvline.c', defs={'KIND': kind, 'W': W, 'H': H, 'ALPHA': A, 'DASH': dash}, unwind=6,
+                    unwindset=COPY_LOOPS % ((n,) * 5) + ',' + loops([fn], (W if kind == 0 else H) + 8, 1), timeout=900, mem_gb=8, object_bits=12,
+                    desc='draw_%s_line on %dx%d (alpha=%d), dash %d: never throws, nothing off the segment changes, full segment drawn when both ends are inside' % (('horizontal', 'vertical')[kind], W, H, A, dash),
+                    bounds='canvas %dx%d, coordinates in [-3,size+3], dash length %d' % (W, H, dash))
+
+    def dlq(W, H, A, dx, dy):
+        n = W * H * (3 + A) + 2
+        return dict(name='drawline_%dx%da%d_dx%d_dy%d' % (W, H, A, dx, dy), unit='img', harness='h_drawline.c', defs={'W': W, 'H': H, 'ALPHA': A, 'DX': '(%d)' % dx, 'DY': '(%d)' % dy}, unwind=max(W, H, 4) + 2,
+                    unwindset=COPY_LOOPS % ((n,) * 5) + ',harness.2:%d' % (W * H + 2), timeout=900, mem_gb=8, object_bits=12,
+                    desc='draw_line direction (%d,%d), start anywhere in [-3,size+3]^2 on %dx%d: marked pixels on the ideal segment; both ends inside => connected path of max(|dx|,|dy|)+1 pixels' % (dx, dy, W, H),
+                    bounds='canvas %dx%d, direction (%d,%d), start in [-3,size+3]^2' % (W, H, dx, dy))
+
+    if not T:
+        qs += [pixel(0, 0, 0, 8), pixel(1, 1, 1, 16), pixel(3, 2, 0, 8), pixel(3, 2, 1, 64), pixel(2, 3, 1, 32)]
+        qs += [opq('fill', 3, 3, 0, 0, 0, 0), opq('fill', 3, 3, 1, 0, 0, 0), opq('fill', 0, 0, 0, 0, 0, 0)]
         for op in OPS[1:]:
-            qs.append(opq(op, 3, 2, 1, 2, 3, 1, 2, 2))
             qs.append(opq(op, 2, 2, 0, 3, 3, 0, 3, 3))
+        qs += [opq('maskimg', 3, 2, 1, 2, 3, 1, 2, 2), opq('maskcolor', 3, 2, 1, 2, 3, 1), opq('custom64', 3, 2, 1, 2, 3, 1)]
+        qs += [blq(0, 1, 1, 8, 0), blq(1, 1, 1, 8, 1), blq(2, 1, 1, 8, 2), blq(3, 1, 1, 8, 0), blq(3, 1, 1, 8, 3)]
+        qs += [txq(0, 3, 3, 1, 255, 1, -3, -4), txq(1, 3, 3, 0, 255, 1, -5, 1)]
+        qs += [ivq(0, 3, 2, 1, 8), ivq(1, 2, 3, 0, 16), ivq(2, 2, 2, 1, 8), ivq(2, 2, 1, 0, 64), ivq(3, 2, 2, 0, 8), ivq(4, 2, 2, 1, 8, 16), ivq(4, 1, 2, 0, 16, 32),
+               ivq(5, 2, 2, 1, 8), ivq(6, 2, 2, 0, 8), ivq(7, 2, 2, 1, 16)]
+        qs += [hvq(0, 3, 2, 1, 0), hvq(0, 3, 2, 0, 2), hvq(1, 2, 3, 1, 1)]
+        qs += [dlq(4, 4, 0, 3, 1), dlq(4, 4, 1, -2, 3), dlq(3, 3, 0, 0, 0), dlq(4, 4, 0, -3, -3)]
+    else:
+        for (W, H) in [(0, 0), (0, 2), (2, 0), (1, 1), (1, 3), (3, 1), (2, 2), (3, 3)]:
+            for A in (0, 1):
+                for CW in (8, 16, 32, 64):
+                    qs.append(pixel(W, H, A, CW))
+        for (W, H) in [(0, 0), (0, 3), (1, 1), (1, 3), (3, 1), (2, 2), (3, 3)]:
+            for A in (0, 1):
+                qs.append(opq('fill', W, H, A, 0, 0, 0))
+        # destination x source size cells for every blit flavour (sizes 0..3, both alpha modes occur on both sides)
+        cells = [(0, 0, 0, 2, 2, 0), (2, 2, 1, 0, 0, 0), (1, 1, 0, 1, 1, 1), (1, 3, 1, 3, 1, 0), (3, 1, 0, 1, 3, 1), (2, 2, 0, 3, 3, 0), (3, 2, 1, 2, 3, 1), (3, 3, 0, 2, 2, 1)]
+        for op in OPS[1:]:
+            for (DW, DH, DA, SW, SH, SA) in cells:
+                if op == 'maskimg':
+                    qs.append(opq(op, DW, DH, DA, SW, SH, SA, SW, SH))
+                else:
+                    qs.append(opq(op, DW, DH, DA, SW, SH, SA))
+        qs += [opq('maskimg', 3, 2, 1, 2, 3, 1, 2, 2), opq('maskimg', 2, 2, 0, 3, 3, 0, 2, 3), opq('maskimg', 2, 2, 0, 3, 3, 0, 1, 1), opq('maskimg', 2, 2, 1, 2, 2, 1, 0, 0)]
+        for kind in (0, 1, 2, 3):
+            for ch in (0, 1, 2, 3):
+                qs.append(blq(kind, 1, 1, 8, ch))
+        qs += [blq(0, 0, 1, 8, 1), blq(1, 0, 1, 8, 0), blq(1, 1, 0, 8, 3), blq(2, 0, 1, 8, 2), blq(3, 0, 1, 8, 1), blq(2, 1, 1, 16, 0), blq(2, 1, 1, 16, 3), blq(3, 1, 1, 16, 1), blq(3, 1, 1, 16, 3)]
+        for (tx, ty) in [(-7, -9), (-6, 0), (-3, -4), (-1, -1), (0, 0), (1, -2), (2, 1), (3, 3), (4, 0), (0, 4), (-5, 1), (1, -8)]:
+            qs.append(txq(0, 3, 3, 1, 255, 1, tx, ty))
+        for (tx, ty) in [(-6, -7), (-2, -3), (0, 0), (1, -2), (4, 1)]:
+            qs.append(txq(0, 4, 2, 0, 0, 1, tx, ty))
+        for (tx, ty) in [(-5, 1), (-1, -1), (0, -6), (2, 2)]:
+            qs.append(txq(1, 3, 3, 0, 255, 1, tx, ty))
+        qs += [txq(1, 2, 2, 1, 0, 2, -7, -3), txq(1, 2, 2, 1, 255, 2, -8, -1)]
+        for (W, H) in [(0, 0), (1, 1), (3, 2), (2, 3), (3, 3)]:
+            for A in (0, 1):
+                for kind in (0, 1, 2, 5, 6, 7):
+                    qs.append(ivq(kind, W, H, A, 8))
+                qs.append(ivq(3, W, H, A, 8))
+        qs += [ivq(0, 2, 2, 0, 16), ivq(1, 1, 2, 1, 32), ivq(2, 2, 1, 0, 64), ivq(2, 2, 2, 1, 16), ivq(3, 2, 1, 1, 16), ivq(3, 2, 2, 0, 64), ivq(5, 2, 2, 0, 64), ivq(7, 2, 2, 1, 16)]
+        for (a, b) in [(8, 16), (8, 32), (8, 64), (16, 32), (16, 64), (32, 64), (16, 8), (32, 8), (64, 16), (64, 32)]:
+            qs.append(ivq(4, 2, 2, 1, a, b)); qs.append(ivq(4, 1, 2, 0, a, b))
+        for kind in (0, 1):
+            for (W, H) in [(0, 0), (1, 1), (3, 2), (2, 3), (3, 3)]:
+                for dash in (0, 1, 2, 3):
+                    qs.append(hvq(kind, W, H, (W + dash) % 2, dash))
+        for dx in range(-3, 4):
+            for dy in range(-3, 4):
+                qs.append(dlq(4, 4, (dx + dy) % 2, dx, dy))
+        qs += [dlq(3, 3, 0, 2, 1), dlq(1, 1, 0, 0, 0), dlq(1, 4, 1, 0, 3), dlq(4, 1, 0, -3, 0), dlq(2, 3, 0, 1, -2)]
+    if T:
+        for q in qs:
+            q.setdefault('tv_runs', 20)  # translation validation: 60 random runs per query in quick, 20 in thorough (many more queries)
     return qs
